@@ -76,6 +76,17 @@ private:
 //   bit 0: sub-handlers are registered before the redirects (else after)
 //   bit 1: a child is attached to its parent while still empty and is populated afterwards (else populated first)
 //   bit 2: the middleware is attached last (else first)
+// a pattern of the case: the text, optionally preceded by \x01 and option letters up to the next \x01:
+//   i case-insensitive, m minimal (non-greedy), w wildcard syntax        e.g. "\x01i\x01^API/"
+QRegExp makeRx(const QByteArray &spec)
+{
+    QByteArray text = spec, opts;
+    if (spec.startsWith('\x01')) { int e = spec.indexOf('\x01', 1); if (e > 0) { opts = spec.mid(1, e - 1); text = spec.mid(e + 1); } }
+    QRegExp rx(QString::fromUtf8(text), opts.contains('i') ? Qt::CaseInsensitive : Qt::CaseSensitive,
+               opts.contains('w') ? QRegExp::Wildcard : QRegExp::RegExp);
+    if (opts.contains('m')) rx.setMinimal(true);
+    return rx;
+}
 Handler *makeHandler(const Val &n, Log *log, QObject *parent)
 {
     int pk = int(n.at(3).asInt()), pid = int(n.at(4).asInt());
@@ -93,15 +104,15 @@ void populate(Handler *h, const Val &n, Log *log, MwById &byId)
         }
     };
     auto addRedirects = [&]() {
-        for (auto &r : n.at(1).l) h->addRedirect(QRegExp(QString::fromUtf8(r.at(0).asBytes())), QString::fromUtf8(r.at(1).asBytes()));
+        for (auto &r : n.at(1).l) h->addRedirect(makeRx(r.at(0).asBytes()), QString::fromUtf8(r.at(1).asBytes()));
     };
     auto addSubs = [&]() {
         for (auto &s : n.at(2).l) {
             Handler *child = makeHandler(s.at(1), log, h);
             bool attachFirst = (int(s.at(1).at(4).asInt()) & 2) != 0;
-            if (attachFirst) h->addSubHandler(QRegExp(QString::fromUtf8(s.at(0).asBytes())), child);
+            if (attachFirst) h->addSubHandler(makeRx(s.at(0).asBytes()), child);
             populate(child, s.at(1), log, byId);
-            if (!attachFirst) h->addSubHandler(QRegExp(QString::fromUtf8(s.at(0).asBytes())), child);
+            if (!attachFirst) h->addSubHandler(makeRx(s.at(0).asBytes()), child);
         }
     };
     if (!(pid & 4)) addMiddleware();
@@ -279,7 +290,7 @@ static Val run_srvd(const Val &c)
 // oracle: (pattern path) -> (matched restUtf8 (cap..))
 static Val run_rxprobe(const Val &c)
 {
-    QRegExp rx(QString::fromUtf8(c.at(0).asBytes()));
+    QRegExp rx = makeRx(c.at(0).asBytes());
     QString path = QString::fromUtf8(c.at(1).asBytes());
     bool m = rx.indexIn(path) != -1;
     Val caps = Val::List();
